@@ -39,19 +39,19 @@ macro "nl_node " h:term : tactic =>
 
 /-- anything proved for fixed addresses holds for the node's own -/
 theorem nl_lift {α} {X : NetM α}
-    (hX : ∀ p0 a1 aN s0 s, Quiet s0 → LstF p0 a1 aN 0x3E s0 s →
+    (hX : ∀ p0 a1 aN s0 s, Quiet7 s0 → LstF p0 a1 aN 0x3E s0 s →
       wp anyErr X (fun _ s' => LstF p0 a1 aN 0x3E s0 s') s)
-    {s0 s : NetState} (h0 : Quiet s0) (h : NL s0 s) :
+    {s0 s : NetState} (h0 : Quiet7 s0) (h : NL s0 s) :
     wp anyErr X (fun _ s' => NL s0 s') s := by
   obtain ⟨⟨p0, a1, aN, ha, hl⟩, hfr⟩ := h
   refine (hX p0 a1 aN s s (h0.nfr0 hfr) ⟨hl, NFr.refl s⟩).post (fun _ s' h' => ?_)
   exact ⟨⟨p0, a1, aN, addrOf_frame h'.2 ha, h'.1⟩, hfr.trans h'.2.to0⟩
 
-theorem nl_netUpdate (f rv : Nat) {s0 s : NetState} (h0 : Quiet s0) (h : NL s0 s) :
+theorem nl_netUpdate (f rv : Nat) {s0 s : NetState} (h0 : Quiet7 s0) (h : NL s0 s) :
     wp anyErr (netUpdate f rv) (fun _ s' => NL s0 s') s :=
   nl_lift (fun p0 a1 aN s0 s c l => (openAll p0 a1 aN f).netUpdate rv s0 s c l) h0 h
 
-theorem nl_nodeWrite (f wd st : Nat) {s0 s : NetState} (h0 : Quiet s0) (h : NL s0 s) :
+theorem nl_nodeWrite (f wd st : Nat) {s0 s : NetState} (h0 : Quiet7 s0) (h : NL s0 s) :
     wp anyErr (nodeWrite f wd st) (fun _ s' => NL s0 s') s :=
   nl_lift (fun p0 a1 aN s0 s c l => (openAll p0 a1 aN f).nodeWrite 0x3E wd st s0 s c l.midF) h0 h
 
@@ -102,7 +102,7 @@ theorem nodeUpdate_eq (f : Nat) : nodeUpdate (f + 1) = (do
   rfl
 
 section
-variable {s0 : NetState} (h0 : Quiet s0) (hg : GoodCfg s0.node.cfg)
+variable {s0 : NetState} (h0 : Quiet7 s0) (hg : GoodCfg s0.node.cfg)
 include h0 hg
 
 /-- master `release_address(address)` as `update()` calls it -/
